@@ -51,7 +51,7 @@
  * --deep (given by ./check to the thorough tier only; implies the thorough bounds and adds to them).  Part 1:
  * request lengths 2, 48, 63, 65, 4096, 131071, 196608, 262145, 1048577 (17 generate calls), 4194305 (65) and 16777217
  * (257 generate calls: such a call crosses a reseed wherever it starts, and two reseeds from reseed_counter 257; the
- * two long steps also keep the breadth-first levels few and wide).  Part 2: requests of 48 bytes (instantiation) and of 32 bytes (reseed), <= 7
+ * two long steps also keep the breadth-first levels few and wide).  Part 2: requests of 48 bytes (instantiation) and of 32 bytes (reseed), <= 6
  * deviations; the same depth-first enumeration, cut into one unit per (request size, answer to open, answer to the
  * first read) so that it runs on the worker pool.
  *
@@ -573,7 +573,7 @@ main(int argc, char ** argv)
 	for (i = 0; i < sizeof(q) / sizeof(q[0]); i++) LENS[NLENS++] = q[i];
 	if (vf_tier) for (i = 0; i < sizeof(t) / sizeof(t[0]); i++) LENS[NLENS++] = t[i];
 	if (deep) for (i = 0; i < sizeof(dp) / sizeof(dp[0]); i++) LENS[NLENS++] = dp[i];
-	os.bound = deep ? 7 : vf_tier ? 5 : 3;
+	os.bound = deep ? 6 : vf_tier ? 5 : 3;
 	ref_selftest();
 	if (vf_replay) return do_replay(vf_replay);
 	vf_info("bounds", "generator: request lengths {0,1,31,32,33,65535,65536,65537,131073%s} x {entropy ok, entropy fails at its next call} from every (instantiated, reseed_counter) state, fixed point; "
@@ -582,6 +582,7 @@ main(int argc, char ** argv)
 	if (deep) vf_info("bounds_deep", "OS entropy: requests of 48 and of 32 bytes, one unit per (request size, answer to open, answer to the first read)");
 	drbg_search();
 	if (deep) {
+		vf_info("deep_generator_seconds", "%.0f s for the generator search (the rest of the run is the OS entropy part)", vf_now());
 		vf_count("osentropy.exhaustive", 0);
 		vf_parallel(2 * OSUNITS, os_search_deep);
 		if (!vf_deadline_hit() && vf_getcount("osentropy.units_done") == (uint64_t)(1 + 48 + 3) + (uint64_t)(1 + 32 + 3) && vf_getcount("crashed_units") == 0) vf_setmax("osentropy.exhaustive", 1);
